@@ -252,13 +252,9 @@ where
     }
 
     async fn try_run_fsync_task(&mut self) -> bool {
-        if self.fsync_task.as_ref().map_or(false, |task| !task.is_finished()) {
-            // Task is in progress. Avoid starting second one
-            return false;
-        }
-
-        complete_task(&mut self.fsync_task, "fsync_task").await;
-
+        // A task that is still in progress may already be past its last look at the un-synced bytes,
+        // so the request is not dropped: the new task runs right after the previous one
+        let mut previous_task = self.fsync_task.take();
 
         let inner = self.inner.clone();
         #[cfg(feature = "pearl_verif")]
@@ -266,6 +262,7 @@ where
         let task = tokio::spawn(async move {
             #[cfg(feature = "pearl_verif")]
             let _verif_task = verif_task;
+            complete_task(&mut previous_task, "fsync_task").await;
             if let Err(e) = inner.fsyncdata().await {
                 error!("failed to fsync data in {:?}: {:?}", inner.config().work_dir(), e);
             }
